@@ -36,4 +36,21 @@ reg(
                  "characters of an address, only equality"],
     exhaustive=True,
 )
+
+GFI_LEVEL_NOTE = ("Trusted base: harness/jaxcompat.py; the model-IR builder (harness/modelir.py) and the numpy/scipy reference "
+                  "interpreter (harness/refmodel.py) share only the deterministic expression evaluator; float32-vs-float64 "
+                  "tolerance atol=2e-4+3e-6*sum|terms|; statistical decisions two-stage (1e-3 then 1e-9 on 8x fresh draws).")
+
+reg(
+    "C01",
+    "Programs are drawn from the model-IR grammar (distributions incl. event-shaped ones, @gen calls with kwargs, Vmap / "
+    "vmapped distributions / repeat, Scan, Cond with shared addresses; nesting depth <= 3) together with arguments; a case "
+    "is one program x argument tuple, run in the modes seed / jit(seed) / vmap-over-keys / unseeded eager. Non-trivial: "
+    ">= 2 sites with a data dependency between them, or >= 1 combinator. Distinct = distinct hash of (program, args).",
+    quick={"shards": 16, "timeout_s": 1500, "n_programs": 6, "n1": 400,
+           "required_classes": ["C01.prog_with_scan", "C01.prog_with_vmap", "C01.prog_with_cond", "C01.prog_with_call",
+                                "C01.prog_with_kwargs", "C01.prog_with_event", "C01.law_exact-pmf", "C01.law_pit"]},
+    thorough={"shards": 16, "timeout_s": 4 * 3600, "n_programs": 120, "n1": 2500,
+              "required_classes": ["C01.prog_with_scan", "C01.prog_with_vmap", "C01.prog_with_cond", "C01.law_exact-pmf", "C01.law_pit"]},
+)
 NOT_CLAIMED = {}
